@@ -738,6 +738,9 @@ func (t *State) verifyMarkedTx(tx *pb.Transaction) error {
 	ok, err := xcc.VerifyECDSA(ecdsaKey, bytesign, digestHash)
 	if err != nil || !ok {
 		t.log.Warn("verifyMarkedTx validateUpdateBlockChainData verifySignatures failed")
+		if err == nil {
+			err = errors.New("verifyMarkedTx signature verify failed")
+		}
 		return err
 	}
 	return nil
